@@ -21,7 +21,7 @@ META = {
                   "srctools._py_vtf_readwrite:save_rgb888_bluescreen", "srctools._py_vtf_readwrite:load_rgb888_bluescreen",
                   "srctools._py_vtf_readwrite:scale_down", "srctools.vtf:Frame.__getitem__", "srctools.vtf:Frame.__setitem__",
                   "srctools.vtf:SheetSequence.make_data", "srctools.vtf:SheetSequence.from_resource", "srctools.vtf:VTF.save", "srctools.vtf:VTF.read",
-                  "srctools.vtf:VTF.compute_mipmaps"],
+                  "srctools.vtf:VTF.compute_mipmaps", "srctools.vtf:Frame.rescale_from", "srctools.vtf:VTF._depth_range"],
     "bounds": "codecs: ALL 8-bit channel values of a 2x1 image (2 pixels, so neighbour interference shows), per writable uncompressed format; "
               "scale_down: all channel values of 2x2, 2x1, 1x2 sources, 5 filters; Frame access: x,y in [-3, w+2]x[-3, h+2] for w,h in {1,2,4}; "
               "sheet: sequence counts {0,1,2,63,64,65} (slices), symbolic version/clamp/frame count/numbering; structure: sizes 1..8, frames 1..2, depth 1..2, cubemaps, versions 7.2-7.5 "
@@ -484,6 +484,53 @@ def h_structure(wi: int, hi: int, frames: int, depth: int, vi: int, cube: bool, 
     out2 = io.BytesIO()
     v2.save(out2)
     check(out2.getvalue() == buf.getvalue(), "saving the re-read file changes bytes")
+    # the same without load(): frames are still backed by the file when save() runs
+    v3 = vtf.VTF.read(io.BytesIO(buf.getvalue()))
+    out3 = io.BytesIO()
+    v3.save(out3)
+    check(out3.getvalue() == buf.getvalue(), "saving a freshly read (not loaded) file changes bytes")
+
+
+def h_mipmaps(wi: int, hi: int, vi: int, cube: bool, frames: int, depth: int) -> None:
+    """compute_mipmaps(): every generated level of every frame / face / depth slice has the halved dimensions (min 1) and is
+    the floor-average of its parent (bilinear), written independently here."""
+    import srctools.vtf as vtf
+    from vf.props.c08 import pick
+    w, h = pick(SIZES, wi), pick(SIZES, hi)
+    minor = pick(VERSIONS, vi)
+    assume(1 <= frames <= 2 and 1 <= depth <= 2)
+    if cube:
+        assume(depth == 1 and w == h)
+    v = vtf.VTF(w, h, version=(7, minor), frames=frames, depth=depth, flags=vtf.VTFFlags.ENVMAP if cube else vtf.VTFFlags.EMPTY,
+                fmt=vtf.ImageFormats.RGBA8888, thumb_fmt=vtf.ImageFormats.NONE)
+    levels = sorted({k[2] for k in v._frames})
+    n = 0
+    for key, fr in v._frames.items():
+        if key[2] == 0:
+            n += 1
+            fr.load()
+            for i in range(len(fr._data)):
+                fr._data[i] = (n * 41 + i * 13 + 7) % 256
+    v.compute_mipmaps()
+    for (f, side, mip), fr in v._frames.items():
+        if mip == 0 or mip >= max(v.mipmap_count, 1):
+            continue
+        par = v._frames[f, side, mip - 1]
+        check(fr.width == max(par.width // 2, 1) and fr.height == max(par.height // 2, 1), "mipmap dimensions", (f, str(side), mip))
+        check(fr._data is not None, "mipmap was not generated", (f, str(side), mip))
+        for y in range(fr.height):
+            for x in range(fr.width):
+                x0, y0 = (2 * x if par.width != fr.width else x), (2 * y if par.height != fr.height else y)
+                x1, y1 = (x0 + 1 if par.width != fr.width else x0), (y0 + 1 if par.height != fr.height else y0)
+                for c in range(4):
+                    t = lambda px, py: par._data[4 * (par.width * py + px) + c]
+                    want = (t(x0, y0) + t(x1, y0) + t(x0, y1) + t(x1, y1)) // 4
+                    check(fr._data[4 * (fr.width * y + x) + c] == want, "generated mipmap is not the average of its parent", (f, str(side), mip, x, y, c))
+
+
+def h_mipmaps_w(wi: int, hi: int, vi: int, cube: bool, frames: int, depth: int) -> None:
+    h_mipmaps(wi, hi, vi, cube, frames, depth)
+    raise Fail("reached")
 
 
 def h_structure_w(wi: int, hi: int, frames: int, depth: int, vi: int, cube: bool, res: bool, fmt: str) -> None:
@@ -509,6 +556,10 @@ def obligations(tier):
         Obl("structure", MOD, "h_structure", slices=[{"fmt": f} for f in (("RGBA8888", "BGR888") if tier == "quick" else ("RGBA8888", "BGR888", "ABGR8888", "IA88", "UV88"))],
             budget_s=1500, per_path_s=120, desc="VTF.save/read: header, frame table, pixels, resources; second save identical",
             bound="sizes 1..8, frames/depth <= 2, cubemaps, versions 7.2-7.5 (by index); concrete pixels"),
+        Obl("mipmaps", MOD, "h_mipmaps", budget_s=1500, per_path_s=120,
+            desc="compute_mipmaps over every frame / cubemap face (incl. the sphere map before 7.5) / depth slice: halved dimensions, average of parent",
+            bound="sizes 1..8, frames/depth <= 2, cubemaps, versions 7.2-7.5 by index; concrete pixels"),
+        Obl("mipmaps.witness", MOD, "h_mipmaps_w", budget_s=300, per_path_s=120, witness=True),
         Obl("structure.witness", MOD, "h_structure_w", slices=[{"fmt": "RGBA8888"}], budget_s=300, per_path_s=120, witness=True),
     ]
     return obls
